@@ -131,7 +131,7 @@ func body(p Params) func() {
 			}
 			r := &jo.Msg{Tag: fmt.Sprintf("h%d", k), Topics: topicsOfP(p, k), Pub: 0, Seq: k}
 			w.Msgs = append(w.Msgs, r)
-			r.Err = j.Publish(mk(r.Tag, k), r.Topics)
+			r.Err = j.Publish(mk(r.Tag, k), append([]string(nil), r.Topics...))
 			r.Returned = true
 			w.IDs = append(w.IDs, idOf(p, k))
 		}
@@ -184,7 +184,7 @@ func body(p Params) func() {
 		w.Msgs = append(w.Msgs, live...)
 		pub := vrt.GoNamed("P", func() {
 			for k, r := range live {
-				r.Err = j.Publish(mk(r.Tag, p.H+k), r.Topics)
+				r.Err = j.Publish(mk(r.Tag, p.H+k), append([]string(nil), r.Topics...))
 				r.Returned = true
 			}
 		})
